@@ -141,12 +141,61 @@ def run_c12(run_, rng, tier, exe):
             return "the file the headers name (t) was not patched to the new version (exit %d)" % r["exit"]
         return None
     _, b3, m3 = l2_family(run_, exe, hl, judge_hl, cls=lambda s, r: "header-like hunk line exit %d" % r["exit"])
-    return bad + b2 + b3, mism + m2 + m3
+    # git sections under every -p count: the names of the "diff --git", ---/+++ and "rename/copy from/to" lines (the latter
+    # carry no a/ b/ prefix) all have to land on the same file: N components removed, or the base name without -p
+    gs = []
+    for _ in range(150 if q else 2500):
+        kind = rng.choice(["rename", "copy", "change", "add", "delete", "rename", "copy"])
+        X = rng.choice(["x/y/f", "x/y/z/f.c", "p/q/r s"]); Y = X
+        if kind in ("rename", "copy"):
+            Y = rng.choice([X.rsplit("/", 1)[0] + "/g", "x/w/g", X + ".new"])
+        hunkless = kind in ("rename", "copy") and rng.random() < 0.5
+        sec = scen.section(rng, "t", kind=kind, fmt="git", nonl=False)
+        hs = [] if hunkless else sec["hs"]
+        a = sec["a"]; b = a if hunkless else sec["b"]
+        text = emit.emit_git(X, Y, hs, kind=kind)
+        N = rng.choice([None, 1, 1, 2, 3])
+        def cut(nm, N=N):
+            if N is None:
+                return nm.rsplit("/", 1)[-1]
+            return "/".join(nm.split("/")[N - 1:])
+        if N is not None and N - 1 >= len(X.split("/")):
+            continue
+        tree = {}
+        if kind != "add":
+            scen.add_parents(tree, cut(X)); tree[cut(X)] = ("R", 0o644, emit.file_bytes(a))
+        tree["p.diff"] = ("R", 0o644, text)
+        o = {"i": "p.diff"}
+        if N is not None:
+            o["p"] = N
+        gs.append(dict(tree=tree, opts=o, umask=0o022, secs=[], kind=kind, src=cut(X), dst=cut(Y), A=emit.file_bytes(a), B=emit.file_bytes(b)))
+
+    def judge_gs(s, r):
+        after = tree_no_meta(r["tree"])
+        if r["exit"] != 0:
+            return "git %s under %s: exit %d" % (s["kind"], "-p%d" % s["opts"]["p"] if "p" in s["opts"] else "no -p", r["exit"])
+        if s["kind"] == "delete":
+            return None if s["src"] not in after else "git delete: %s is still there" % s["src"]
+        d = after.get(s["dst"])
+        if d is None or d[2] != s["B"]:
+            return "git %s under %s: %s does not hold the new version" % (s["kind"], "-p%d" % s["opts"]["p"] if "p" in s["opts"] else "no -p", s["dst"])
+        if s["kind"] == "rename" and s["src"] in after:
+            return "git rename: the source %s is still there" % s["src"]
+        if s["kind"] == "copy" and (after.get(s["src"]) or (0, 0, None))[2] != s["A"]:
+            return "git copy: the source %s changed" % s["src"]
+        extra = [p for p in after if p not in s["tree"] and p != s["dst"] and not s["dst"].startswith(p + "/")]
+        if extra:
+            return "git %s: unexpected paths appeared: %s" % (s["kind"], extra[:3])
+        return None
+    _, b4, m4 = l2_family(run_, exe, gs, judge_gs, cls=lambda s, r: "git %s %s" % (s["kind"], "p%d" % s["opts"]["p"] if "p" in s["opts"] else "nop"))
+    return bad + b2 + b3 + b4, mism + m2 + m3 + m4
 
 
 # ---------------------------------------------------------------- C13
 def sides(h):
-    return ([(t, nl) for o, t, nl in h["body"] if o != "+"], [(t, nl) for o, t, nl in h["body"] if o != "-"])
+    """old-side and new-side line sequences: text and whether the final newline is missing (a reject file is written with LF
+    line endings whatever the patch file used)"""
+    return ([(t, nl == "N") for o, t, nl in h["body"] if o != "+"], [(t, nl == "N") for o, t, nl in h["body"] if o != "-"])
 
 
 def parse_hunks_field(line):
@@ -183,6 +232,9 @@ def rand_wf_hunk(rng):
         i = ni[-1]
         if body[i][0] == "+" or (oi and oi[-1] == i):
             body[i] = (body[i][0], body[i][1] or "z", "N")
+    if rng.random() < 0.15:
+        # a hunk read from a patch file with CRLF line endings: every terminated line is of class CRLF
+        body = [(o, t, "C" if nl == "L" else nl) for o, t, nl in body]
     h = gen.hunk_of_body(body, rng.randint(1, 50), rng.randint(1, 50))
     if h["oc"] == 0:
         h["os"] -= 1
@@ -218,7 +270,7 @@ def run_c13(run_, rng, tier, exe):
             mism.append((i, "L1 PARSE", dict(case=c2[j], impl=impl2[j], model=model2[j])))
         got = parse_hunks_field(impl2[j]) if impl2[j].startswith("PATCH") else None
         ok = got is not None and len(got) == 1 and (got[0]["os"], got[0]["oc"], got[0]["ns"], got[0]["nc"]) == (h["os"], h["oc"], h["ns"], h["nc"]) \
-            and sides(got[0]) == sides(h) and (not uni or got[0]["body"] == h["body"])
+            and sides(got[0]) == sides(h) and (not uni or got[0]["body"] == [(o_, t_, "L" if n_ == "C" else n_) for o_, t_, n_ in h["body"]])
         if not ok:
             bad.append((i, "a hunk written in %s form and read back denotes a different change" % ("unified" if uni else "context"),
                         dict(hunk=enc_hunk(h), written=unhx(impl1[i].split()[1]).decode("latin-1") if impl1[i].startswith("BYTES") else impl1[i],
@@ -230,6 +282,13 @@ def run_c13(run_, rng, tier, exe):
         s = scen.gen_scenario(rng, nsec=1, kinds=["change"], fmts=["unified", "context", "normal"], drift=0.9, opts=o)
         if s["secs"][0]["fmt"] == "normal":
             s["opts"]["file"] = s["secs"][0]["path"]
+        # patch files with CRLF line endings (mailed or checked out on Windows), target in CRLF or LF form
+        if rng.random() < 0.3 and "p.diff" in s["tree"] and b"\\ No newline" not in s["tree"]["p.diff"][2] and b"\r" not in s["tree"]["p.diff"][2]:
+            k_, m_, d_ = s["tree"]["p.diff"]; s["tree"]["p.diff"] = (k_, m_, d_.replace(b"\n", b"\r\n"))
+            tp = s["secs"][0]["path"]
+            if rng.random() < 0.7 and not s["tree"][tp][2].endswith(b"\r") and b"\r" not in s["tree"][tp][2]:
+                k_, m_, d_ = s["tree"][tp]; s["tree"][tp] = (k_, m_, d_.replace(b"\n", b"\r\n"))
+            s["crlf_patch"] = True
         scns.append(s)
     # a patch of which only the first hunk is already in the file, run with -N: skipped, every hunk rejected, nothing shifted
     for _ in range(100 if q else 1500):
